@@ -48,7 +48,9 @@ Clauses(S, o) ==
      <<"singletons", o.single = SingletonsOf(S)>>,
      <<"empty", o.empty = EmptyOf(S)>>,
      <<"maximal", o.max = MaximalOf(S, FALSE)>>,
-     <<"subviews", LET b == o.sub IN Len(b) = 8 /\
+     <<"subviews", LET b == o.sub IN Len(b) = 10 /\
+          /\ b[9][2] = SelectSeq(b[2], LAMBDA n : Degree(S, n) >= b[9][1])
+          /\ b[10][2] = SelectSeq(b[5], LAMBDA e : SizeOf(S, e) <= b[10][1])
           /\ b[2] = Only(S.nodes, Range(b[1])) /\ b[3] = [k \in DOMAIN b[2] |-> Degree(S, b[2][k])]
           /\ b[5] = Only(S.edges, Range(b[4])) /\ b[6] = [k \in DOMAIN b[5] |-> SizeOf(S, b[5][k])]
           /\ Len(b[7]) = Len(b[5]) /\ (\A k \in DOMAIN b[5] : Range(b[7][k]) = S.e2n[b[5][k]])
